@@ -556,6 +556,8 @@ def shards(tier, seed):
         parts = max(1, min(n, int(round(n * cost[tier == 'thorough'] / SHARD_S[tier]))))
         for i in range(parts):
             out.append({'family': name, 'part': i, 'of': parts})
+    from .. import c12_mpedges
+    out += c12_mpedges.shards(tier)
     return out
 
 
@@ -638,6 +640,10 @@ def run_shard(spec, tier, seed):
     from .. import c12_cases
     res = core.ShardResult()
     name = spec['family']
+    if name == 'mpedges':
+        from .. import c12_mpedges
+        c12_mpedges.run(spec, tier, res)
+        return res
     cases = family_cases(name, tier)[spec['part']::spec['of']]
     if name == 'masked':
         for parent in cases:
@@ -668,6 +674,9 @@ def run_shard(spec, tier, seed):
 
 
 def replay(w):
+    if w.get('family') == 'mpedges':
+        from .. import c12_mpedges
+        return c12_mpedges.replay(w)
     fails, stats = run_case(w)
     if not fails:
         return None
